@@ -93,6 +93,16 @@ func mirrorCheck(prop string, props string, rule string) func(c *vx.Ctx) {
 	}
 }
 
+const ruleCommon = "executions = benign 40-event script over 4 heights (validator sets change at heights 3,4,5; one nil round) with every single deviation (insert any alphabet event at any of 41 positions, drop or corrupt any scripted message), in the thorough tier every pair of core-alphabet deviations, plus BFS with canonical-state dedup from 4 script prefixes; oracles run after every event; "
+
 func init() {
-	registry.Checks["C05"] = mirrorCheck("C05", "C05", "executions = benign 40-event script over 4 heights with every single deviation (insert any alphabet event at any position, drop or corrupt any scripted message) plus BFS with state dedup from 4 script prefixes; after every event every signature reachable from views, gossip, state-machine views, round store and header store is re-verified with crypto/ed25519; non-trivial = execution in which the node admitted at least one vote or committed a header, distinct by final canonical state")
+	registry.Checks["ALLA"] = mirrorCheck("ALLA", allProps, ruleCommon)
+	registry.Checks["C01"] = mirrorCheck("C01", "C01", ruleCommon+"every commit event (committing view change, committed-header store write, committed header handed to the state machine, accepted replay) is certified by independently verifying the precommit signatures the node holds against the chain-prescribed validator set; non-trivial = execution that admitted a vote or committed a header, distinct by final canonical state")
+	registry.Checks["C04"] = mirrorCheck("C04", "C04", ruleCommon+"after every event: committed hashes never change, heights contiguous from the initial height, hash links, stored and in-memory positions never regress, voting = committing+1; non-trivial as C01")
+	registry.Checks["C05"] = mirrorCheck("C05", "C05", ruleCommon+"after every event every signature reachable from views, gossip updates, state-machine views, round store and header store is re-verified with crypto/ed25519 against the sign bytes of the kind/height/round/hash it is filed under; all-invalid messages must leave the full observable snapshot unchanged and must not be Accepted; non-trivial as C01")
+	registry.Checks["C06"] = mirrorCheck("C06", "C06", ruleCommon+"every vote summary seen (views, gossip, state machine) is recomputed from the signer bitsets; every voting-round change must be justified by distinct validators' delivered votes; non-trivial as C01")
+	registry.Checks["C07"] = mirrorCheck("C07", "C07", ruleCommon+"after every event the voting and committing views' validator sets must equal the chain-prescribed set, match the next-set hashes of the header committed below, and hash to their own hashes; non-trivial as C01")
+	registry.Checks["C11"] = mirrorCheck("C11", "C11", ruleCommon+"per-consumer monitors over everything the gossip and state-machine consumers received (strictly increasing versions, growing proposals and signer sets), currency after the final drain, nil-round precommits delivered; non-trivial as C01")
 }
+
+var _ = registry
